@@ -15,6 +15,8 @@
 package ggql
 
 import (
+	"fmt"
+	"math"
 	"strconv"
 )
 
@@ -80,11 +82,11 @@ func (t *intScalar) CoerceOut(v interface{}) (interface{}, error) {
 	case nil:
 		// remains nil
 	case float32:
-		v = int32(tv)
+		v, err = intFromFloat(float64(tv))
 	case float64:
-		v = int32(tv)
+		v, err = intFromFloat(tv)
 	case int:
-		v = int32(tv)
+		v, err = intFromInt64(int64(tv))
 	case int8:
 		v = int32(tv)
 	case int16:
@@ -92,25 +94,50 @@ func (t *intScalar) CoerceOut(v interface{}) (interface{}, error) {
 	case int32:
 		// ok as is
 	case int64:
-		v = int32(tv)
+		v, err = intFromInt64(tv)
 	case uint:
-		v = int32(tv)
+		v, err = intFromUint64(uint64(tv))
 	case uint8:
 		v = int32(tv)
 	case uint16:
 		v = int32(tv)
 	case uint32:
-		v = int32(tv)
+		v, err = intFromUint64(uint64(tv))
 	case uint64:
-		v = int32(tv)
+		v, err = intFromUint64(tv)
 	case string:
 		var i int64
 		if i, err = strconv.ParseInt(tv, 10, 64); err == nil {
-			v = int32(i)
+			v, err = intFromInt64(i)
 		}
 	default:
 		err = newCoerceErr(tv, "Int")
 		v = nil
 	}
 	return v, err
+}
+
+// A GraphQL Int is a signed 32 bit integer. Values outside that range can not
+// be represented and must be reported instead of being wrapped around.
+
+func intFromInt64(i int64) (interface{}, error) {
+	if i < math.MinInt32 || math.MaxInt32 < i {
+		return nil, fmt.Errorf("%w %d into a Int, out of range", ErrCoerce, i)
+	}
+	return int32(i), nil
+}
+
+func intFromUint64(u uint64) (interface{}, error) {
+	if math.MaxInt32 < u {
+		return nil, fmt.Errorf("%w %d into a Int, out of range", ErrCoerce, u)
+	}
+	return int32(u), nil
+}
+
+func intFromFloat(f float64) (interface{}, error) {
+	// Written so that NaN fails the test as well.
+	if !(math.MinInt32 <= f && f <= math.MaxInt32) {
+		return nil, fmt.Errorf("%w %v into a Int, out of range", ErrCoerce, f)
+	}
+	return int32(f), nil
 }
